@@ -16,6 +16,9 @@ func NondetFloat32(name string) float32                            { return 0 }
 // NondetStringN: a string of exactly n bytes (n concrete) over the alphabet, contents symbolic.
 func NondetStringN(name string, n int, alphabet string) string { return "" }
 
+// NondetBytesLen: a byte slice of arbitrary length <= maxLen whose contents are irrelevant (not materialised symbolically).
+func NondetBytesLen(name string, maxLen int) []byte { return nil }
+
 // Param is a tier-dependent bound chosen by the check driver (a concrete constant in every run).
 func Param(name string) int { return 0 }
 
